@@ -36,7 +36,7 @@ RULE = ('word cases = every fault word of length <= read+status+1 over the alpha
         'a good answer, for Retry budgets (total 10, read 1, status 1) and (total 1, read 1, status 1) '
         '[thorough: read, status in {1,2}, total in {10, read+status-1}, stall added to the alphabet, every cut offset], '
         'each run as a chunk read (get_chunk, stream=True) and as an RDB-style download (request(process=_read_object), '
-        'stream=False); plus stall samples (read timeout 0.3 s), the store\'s default retry configuration with '
+        'stream=False); plus stall samples (read timeout 0.5 s), the store\'s default retry configuration with '
         'Retry.sleep patched out, is_complete / put_chunk words, sequences of consecutive get_chunk calls on one '
         'store with 404 and missing/empty/non-empty buckets (verified-bucket cache, listing faults), 401/403 from '
         'the server knobs, hand-built unsigned JWTs of every rejected class x URL scheme/host x prefix scope, and '
@@ -53,7 +53,7 @@ CHECKER = 'lake build KatdalModel.Props.C09 kd_c09 && lake env lean <#print axio
 
 SPEC_FORCE = (500, 502, 503, 504)       # the property text names these as transient
 BUCKET = 'bucket'
-STALL_RT = 0.3                          # read timeout used when a stall is scripted
+STALL_RT = 0.5                          # read timeout used when a stall is scripted
 SAFE_RT = 8.0                           # read timeout when no stall is scripted (never expected to fire)
 
 ARRAYS = [
